@@ -95,3 +95,56 @@ func HarnessC06Template() {
 	}
 	vsymCover("end")
 }
+
+
+func init() {
+	vsymHarnesses["HarnessC06Large"] = HarnessC06Large
+}
+
+// HarnessC06Large: a complete array of n elements (n around allocation boundaries, or - thorough -
+// every n up to a bound through a symbolic count field) comes back with exactly n present elements.
+func HarnessC06Large() {
+	max := vsymParamInt("max", 0)
+	n := vsymParamInt("n", 1025)
+	vsymUnwind(n + max + 64)
+	var in []byte
+	if max > 0 {
+		// symbolic count: 4 decimal digits, value <= max
+		d := vsymBytes("count", 4)
+		v := 0
+		for _, b := range d {
+			vsymAssume(b >= '0' && b <= '9')
+			v = v*10 + int(b-'0')
+		}
+		vsymAssume(v <= max)
+		in = append([]byte{'*'}, d...)
+		n = max
+	} else {
+		in = append([]byte{'*'}, refItoa(n)...)
+	}
+	in = append(in, '\r', '\n')
+	for i := 0; i < n; i++ {
+		in = append(in, ':', '1', '\r', '\n')
+	}
+	msg, err := NewParserWithBytes(in).Next()
+	vsymAssert(err == nil && msg != nil, "complete-array-parses")
+	if err != nil || msg == nil {
+		return
+	}
+	arr, aerr := msg.Array()
+	vsymAssert(aerr == nil && arr != nil, "is-array")
+	if aerr != nil || arr == nil {
+		return
+	}
+	if max == 0 {
+		vsymAssert(arr.Size() == n, "array-has-declared-size")
+	}
+	ok := true
+	for _, e := range arr.msgs {
+		if e == nil {
+			ok = false
+		}
+	}
+	vsymAssert(ok, "no-absent-element")
+	vsymCover("end")
+}
